@@ -37,13 +37,11 @@ func (y *Yaml) IsFound() bool {
 //	     y.Get("xx").Get("yy").Int()
 //			y.Get("notPresent").IsFound()
 func (y *Yaml) Get(key any) *Yaml {
-	found := false
-	for _, n := range y.data.Content {
-		if found {
-			return &Yaml{n}
-		}
+	// the content of a mapping node is a list of key, value pairs: only the keys are compared
+	for i := 0; i+1 < len(y.data.Content); i += 2 {
+		n := y.data.Content[i]
 		if n.Kind == yaml.ScalarNode && n.Value == key {
-			found = true
+			return &Yaml{y.data.Content[i+1]}
 		}
 	}
 	return &Yaml{nil} // always returns yaml node, if key not present yaml node with nil value is returned
